@@ -12,7 +12,7 @@ RULE = ("reaction lists of 1-6 reactions (0-4 reactants/products with repeats, c
         "than initialisation; non-trivial = repeated species, catalyst or delayed part; distinct by spec x declaration order")
 ASSUMPTIONS = ["reference rate laws of vlib/ref.py (C03 is asserted only where the per-reaction rates agree with them)"]
 RUN_OPTS = {"batch_size": 10, "timeout_per_case": 30.0}
-MINIMA = {"*": {"matrix_entries_compared": 2000, "derivative_components_compared": 2000, "negative_cases": 20, "orders_built": 100}}
+MINIMA = {"*": {"matrix_entries_compared": 2000, "derivative_components_compared": 2000, "negative_cases": 20, "orders_built": 100, "models_built_after_refused_calls": 50}}
 
 
 def gen_case(rnd, tier):
@@ -41,6 +41,9 @@ def gen_case(rnd, tier):
                     "t": float("%.3g" % rnd.uniform(0, 30))})
     case = {"reactions": rx, "params": params, "x0": {s: rnd.randint(0, 9) for s in allsp}, "rules": [], "perms": [list(p) for p in perms],
             "points": pts, "allsp": allsp}
+    if rnd.random() < 0.5:
+        # refused create_reaction calls interleaved with the valid ones (incremental and icd routes)
+        case["poison"] = [[rnd.randint(0, len(rx) - 1), rnd.choice(["hill_s1", "prophill_d", "ma_species", "hill_delay"])] for _ in range(rnd.randint(1, 2))]
     named = sorted(params)
     if named and rnd.random() < 0.5:
         case["missing"] = rnd.choice(named)
@@ -83,6 +86,11 @@ def run_case(case):
             sp["species"] = list(perm)
         try:
             M = specmod.build_model(sp, "ctor" if route == "implicit" else route)
+            if sp.get("poison") and route in ("incremental", "icd"):
+                C["models_built_after_refused_calls"] += 1
+        except specmod.PoisonAccepted:
+            C["poison_accepted"] += 1
+            continue
         except Exception as e:
             viol.append({"key": "C03/build-refused", "msg": "valid model refused (%s route, order %s): %r" % (route, perm, e)})
             continue
